@@ -12,6 +12,8 @@ Decided on every CFG path of every ConcurrentVector<T> instantiation (T with non
                        what it releases (each block freed exactly once).
   C32.alloc-before-advance insertPartial forms iterators beyond the old end() only after the
                        buckets they point into were allocated (pointer-caching iterators).
+  C32.shrink-keeps-lookahead shrink_to_fit starts releasing at max(2, bucket + 2): the look-ahead bucket of
+                       the half/full-ahead strategies survives.
   C32.no-double-ctor   insert(pos, value) never placement-constructs at the insertion point:
                        insertPartial() opens the gap with move_backward, which leaves a *live*
                        moved-from element there, so the new value must be assigned; insertPartial
@@ -191,3 +193,34 @@ def run(R):
              "every iterator advanced past the old end() is formed after allocateBuffer*()" if ok else "an iterator is advanced past the old end() before the buckets it points into are allocated (the pointer-caching iterator keeps a null bucket base)",
              sitekey="insertPartial:%d-params" % len(fn.params), why="the inserted elements must be constructed in the vector's storage")
     R.need("C32.alloc-before-advance", n, 2, "insertPartial overloads")
+
+    # ---- shrink_to_fit keeps the look-ahead bucket --------------------------------------------------------------
+    # the kHalfBufferAhead / kFullBufferAhead strategies allocate bucket b+1 while bucket b is being filled
+    # and never look at it again; shrink_to_fit() must therefore start releasing at bucket b+2 (and never
+    # below 2: buckets 0 and 1 are one allocation). Releasing b+1 makes the next growth spin forever on a
+    # buffer nobody allocates.
+    from lib.rules import eval_int, natural_loops as _nl
+    n = 0
+    for fn in F.functions(qname=CLS + "::shrink_to_fit"):
+        loops = _nl(fn)
+        starts = []
+        for p, e in fn.events():
+            # the loop variable's initial value: `for (size_t b = startBucket; ...)`
+            if e.get("k") == "decl" and e.get("loop") is not None and e.get("init") is not None and "size_t" in (e.get("type") or "") + (e.get("ctype") or "unsigned long"):
+                starts.append((p, e))
+        for p, e in starts[:1]:
+            n += 1
+            bad, unknown = None, False
+            for bucket in (0, 1, 2, 3, 7):
+                v = eval_int(fn, e.get("init"), lambda x, bucket=bucket: bucket if (x.get("k") == "member" and x.get("fname") == "bucket") else None)
+                if v is None:
+                    unknown = True
+                elif v < max(2, bucket + 2) and bad is None:
+                    bad = (bucket, v)
+            if unknown and bad is None:
+                R.inconclusive("C32.shrink-keeps-lookahead", "cannot evaluate the first released bucket %s" % expr_str(e.get("init")))
+                continue
+            R.ob("C32.shrink-keeps-lookahead", fn, e, bad is None, "shrink_to_fit starts releasing at max(2, bucket + 2)" if bad is None else
+                 "with the end in bucket %d, shrink_to_fit releases from bucket %d on: the look-ahead bucket %d, which the half/full-ahead strategies have already allocated and never allocate again, is freed" % (bad[0], bad[1], bad[0] + 1),
+                 sitekey="first-released-bucket", why="after shrink_to_fit the vector must keep growing like std::vector (every trait combination)")
+    R.need("C32.shrink-keeps-lookahead", n, 1, "shrink_to_fit release loop")
